@@ -32,6 +32,9 @@ pub enum Op {
     Corrupt { frame: usize, pos: usize, xor: u8 },
     /// every single-byte corruption of the first frame (xor 0xFF and 0x01)
     CorruptAll,
+    /// frame `frame % n` with its length prefix lowered by `cut`, followed by the rest of the stream:
+    /// the decoder may read the declared bytes only
+    ShortPrefix { frame: usize, cut: usize },
     /// random bytes to every decoder
     Random { bytes: Vec<u8> },
     /// an oversized length prefix
@@ -138,6 +141,10 @@ impl Property for C09 {
                 Op::Random { bytes: { let mut v = vec![0, 0, 0, 44, 1, 1, 0, 3, 1, 2, 3, 2, 4, 5]; v.extend([9u8; 32]); v } },
                 Op::Random { bytes: { let mut v = vec![1u8; 128]; v.extend([10, 1, 2, 3, 4, 5, 6, 7, 8, 9, 10, 0]); v.extend([7u8; 32]); v.push(5); v } },
             ]),
+            ("short-length-prefix-before-more-data".into(), vec![
+                p(0, 0, b"a", Some(0), 5), p(1, 1, b"b", Some(1), 6), Op::Session, Op::Abort { reason: 0 },
+                Op::ShortPrefix { frame: 0, cut: 16 }, Op::ShortPrefix { frame: 1, cut: 1 }, Op::ShortPrefix { frame: 2, cut: 40 }, Op::ShortPrefix { frame: 100, cut: 1 },
+            ]),
             ("oversized".into(), vec![Op::Oversized { len: 1073741825 }, Op::Oversized { len: 1073741824 }, Op::Oversized { len: u32::MAX }]),
             ("tickets".into(), vec![
                 Op::Ticket { write: false, ns: 7, nodes: vec![0] },
@@ -161,7 +168,8 @@ impl Property for C09 {
         for _ in 0..rng.range(1, if thorough { 10 } else { 4 }) {
             match rng.below(10) {
                 0..=3 => ops.push(Op::Chunks { cuts: (0..rng.range(1, 6)).map(|_| rng.below(4000)).collect() }),
-                4..=6 => ops.push(Op::Corrupt { frame: rng.below(8), pos: rng.below(100000), xor: *rng.pick(&[1u8, 0x80, 0xFF, 0x7F]) }),
+                4 => ops.push(Op::ShortPrefix { frame: rng.below(8), cut: *rng.pick(&[1usize, 2, 3, 16, 40, 100, 1000]) }),
+                5..=6 => ops.push(Op::Corrupt { frame: rng.below(8), pos: rng.below(100000), xor: *rng.pick(&[1u8, 0x80, 0xFF, 0x7F]) }),
                 7 => ops.push(Op::Oversized { len: *rng.pick(&[1073741825u32, 0x7FFFFFFF, u32::MAX, 1073741824]) }),
                 8 => {
                     let n = rng.below(4);
@@ -309,6 +317,35 @@ impl Property for C09 {
                     b[p] ^= *xor;
                     match guarded(|| feed_line(&[b.clone()])) {
                         Some(line) => lines.push(Line::model(format!("cfeed {}", hex(&b)), line)),
+                        None => lines.push(Line::oracle("sconst no-panic", "decoder-panicked")),
+                    }
+                }
+                Op::ShortPrefix { frame, cut } => {
+                    if encoded.is_empty() { continue; }
+                    let i = frame % encoded.len();
+                    let mut b = encoded[i].clone();
+                    let len = u32::from_be_bytes([b[0], b[1], b[2], b[3]]) as usize;
+                    let short = len - (*cut).clamp(1, len.max(1)).min(len);
+                    b[..4].copy_from_slice(&(short as u32).to_be_bytes());
+                    // … and whatever follows in the stream (at least one more frame: this one again)
+                    let mut stream = b.clone();
+                    for e in encoded.iter().skip(i + 1) {
+                        stream.extend_from_slice(e);
+                    }
+                    stream.extend_from_slice(&encoded[i]);
+                    let exact = b[..4 + short].to_vec();
+                    match guarded(|| (feed_line(&[stream.clone()]), feed_line(&[exact.clone()]))) {
+                        Some((whole, alone)) => {
+                            lines.push(Line::model(format!("cfeed {}", hex(&stream)), whole.clone()));
+                            // specification: a frame is decoded from the declared bytes alone: what the first frame
+                            // decodes to does not depend on what is buffered behind it
+                            let first = |l: &str| -> String {
+                                let t: Vec<&str> = l.splitn(4, ' ').collect();
+                                if t.get(1) == Some(&"0") { "none".to_string() } else { t.get(2).map(|f| f.split('#').next().unwrap_or("").to_string()).unwrap_or_default() }
+                            };
+                            let ok = first(&alone) == first(&whole);
+                            lines.push(Line::oracle("sconst frame-decoded-from-declared-bytes-only", if ok { "frame-decoded-from-declared-bytes-only".to_string() } else { "bytes-behind-a-frame-changed-what-it-decodes-to".to_string() }));
+                        }
                         None => lines.push(Line::oracle("sconst no-panic", "decoder-panicked")),
                     }
                 }
